@@ -626,6 +626,24 @@ def run_tree(tr, cmds):
             out.append('%d.orig=%s' % (k, hexr(n)))
         elif op == 'summ':
             out.append('%d.summ=%s' % (k, EC(lambda: node_str(n.summarize_into(int(c[1]))()))))
+        elif op == 'hcost':
+            g, e, v = int(c[1]), int(c[2]) != 0, mk_tree(c[3])
+
+            def hcost():
+                base = mk_tree(tr)   # a fresh, unhashed copy of the tree
+                _, c1 = hashes_during(lambda: base.merkle_root())
+                _, c2 = hashes_during(lambda: base.merkle_root())
+                try:
+                    r = (base.setter(g, expand=True) if e else base.setter(g))(v)
+                except NavigationError:
+                    return '%d/%d/err' % (c1, c2)
+                root, c3 = hashes_during(lambda: r.merkle_root())
+                fresh = [x for x in share_info(base, r).split(',') if x]
+                # fresh pairs of the result that do not belong to the inserted node
+                vb = bin(g)[2:]
+                own = [x for x in fresh if not (bin(int(x))[2:].startswith(vb))]
+                return '%d/%d/%d/%s/%d' % (c1, c2, c3, root.hex(), len(own))
+            out.append('%d.hcost=%s' % (k, E(hcost)))
         elif op in ('vget', 'vset'):
             import pyimpl_partial
             try:
